@@ -537,14 +537,33 @@ impl Drop for Driver {
                 key => {
                     #[cfg(compio_verif)]
                     compio_log::verif::point("iour.drop.cqe", key, more(entry.flags()) as u64);
+                    // Hand the completion to the operation before letting go of the key: a
+                    // descriptor created by the kernel (accept, open, socket) exists only as
+                    // the number in this entry, and only the operation that adopted it closes
+                    // it when it is dropped. No waker is invoked here. A completion that
+                    // carries a provided buffer never carries a descriptor, and the buffer
+                    // pool has already been released by now: it is left alone.
+                    let adopt = io_uring::cqueue::buffer_select(entry.flags()).is_none();
+                    let res = create_result(entry.result());
+                    let mut extra: crate::sys::Extra = IourExtra::new().into();
+                    extra.set_flags(entry.flags());
                     // A completion flagged `MORE` (multishot, zero-copy) only borrows the key:
                     // the kernel keeps its reference until the final completion, so the key
                     // stays in `in_flight` and is released after the ring is closed.
                     if more(entry.flags()) {
+                        if adopt {
+                            let key = unsafe { BorrowedKey::from_raw(key as _) };
+                            unsafe { key.borrow().carrier.push_multishot(res, extra) };
+                        }
                         continue;
                     }
                     self.in_flight.remove(&(key as usize));
-                    drop(unsafe { ErasedKey::from_raw(key as _) });
+                    let key = unsafe { ErasedKey::from_raw(key as _) };
+                    if adopt {
+                        let mut op = key.borrow();
+                        unsafe { crate::sys::Carry::set_result(&mut op.carrier, &res, &extra) };
+                    }
+                    drop(key);
                 }
             }
         }
